@@ -121,6 +121,39 @@ class IterStateful(tud.IterableDataset):
         self.i = sd["i"]
 
 
+class IterIterStateful(tud.IterableDataset):
+    """the ITERATOR (not the dataset) carries the state: every __iter__ starts at the first item"""
+
+    def __init__(self, sizes):
+        self.sizes = sizes
+
+    def __iter__(self):
+        wi = tud.get_worker_info()
+        w = wi.id if wi else 0
+        items = shard_items(w, self.sizes[w]) if wi else [x for i, n in enumerate(self.sizes) for x in shard_items(i, n)]
+        return _StatefulIt(items)
+
+
+class _StatefulIt:
+    def __init__(self, items):
+        self.items, self.i = items, 0
+
+    def __iter__(self):
+        return self
+
+    def __next__(self):
+        if self.i >= len(self.items):
+            raise StopIteration
+        self.i += 1
+        return self.items[self.i - 1]
+
+    def state_dict(self):
+        return {"i": self.i}
+
+    def load_state_dict(self, sd):
+        self.i = sd["i"]
+
+
 def identity(x):
     return x
 
@@ -160,6 +193,9 @@ class _SchedResultQueue:
         if not cands:
             raise queue.Empty
         w = self.chooser(cands)
+        if w is None:                  # the schedule says: this poll of the result queue times out
+            self.log.append((-1, "timeout"))
+            raise queue.Empty
         obj = self._get_from(w, timeout)
         self.pending[w] -= 1
         data = obj[1][0] if isinstance(obj[1], tuple) else None
@@ -249,11 +285,14 @@ class Schedule:
     extended with zeros when exhausted. `used` records what was consumed (replayed in the model)."""
 
     def __init__(self, choices):
-        self.choices, self.pos, self.used = list(choices), 0, []
+        self.choices, self.pos, self.used, self.timeouts = list(choices), 0, [], 0
 
     def __call__(self, cands):
         c = self.choices[self.pos] if self.pos < len(self.choices) else 0
         self.pos += 1
+        if c >= 100:                   # a timeout of the main process's poll (no effect in the model: not recorded in `used`)
+            self.timeouts += 1
+            return None
         self.used.append(c)
         return sorted(cands)[c % len(cands)]
 
@@ -262,6 +301,8 @@ class Schedule:
 def make_dataset(cfg):
     if cfg["kind"] == "map":
         return MapDS(cfg["n"], cfg.get("bad", ()))
+    if cfg.get("iterstate"):
+        return IterIterStateful(cfg["sizes"])
     if cfg.get("stateful"):
         return IterStateful(cfg["sizes"], cfg.get("rewind", False))
     return IterPlain(cfg["sizes"])
@@ -351,6 +392,8 @@ def abs_wsave(ws, cfg):
         return [0, False]
     ds, fs = ws.get("dataset_state"), ws.get("fetcher_state")
     pos = ds["i"] if isinstance(ds, dict) and "i" in ds else 0
+    if fs is not None and isinstance(fs.get("dataset_iter_state"), dict):
+        pos = fs["dataset_iter_state"]["i"]
     ended = bool(fs["fetcher_ended"]) if fs is not None else False
     return [pos, ended]
 
